@@ -33,7 +33,7 @@ from typing import List, Dict, Tuple
 from collections import defaultdict
 
 from ..abc_property_graph import ABCPropertyGraph, ABCPropertyGraphConstants, PropertyGraphQueryException
-from ..neo4j_property_graph import Neo4jPropertyGraph, Neo4jGraphImporter
+from ..neo4j_property_graph import Neo4jPropertyGraph, Neo4jGraphImporter, cypher_escape
 from .abc_cbm import ABCCBMPropertyGraph
 from .neo4j_adm import Neo4jADMGraph
 from fim.slivers.capacities_labels import StructuralInfo, StructuralInfoException
@@ -293,7 +293,7 @@ class Neo4jCBMGraph(Neo4jPropertyGraph, ABCCBMPropertyGraph):
                 else:
                     component_counts[(comp.resource_type, comp.resource_model)] = 1
         # unroll properties
-        node_props = ", ".join([x + ": " + '"' + props[x] + '"' for x in props.keys()])
+        node_props = ", ".join([x + ": " + '"' + cypher_escape(props[x]) + '"' for x in props.keys()])
 
         if len(component_counts.values()) == 0:
             # simple query on the properties of the node (no components)
@@ -306,9 +306,9 @@ class Neo4jCBMGraph(Neo4jPropertyGraph, ABCCBMPropertyGraph):
             for k, v in component_counts.items():
                 comp_props_list = list()
                 if k[0] is not None:
-                    comp_props_list.append('Type: ' + '"' + str(k[0]) + '"' + ' ')
+                    comp_props_list.append('Type: ' + '"' + cypher_escape(k[0]) + '"' + ' ')
                 if k[1] is not None:
-                    comp_props_list.append('Model: ' + '"' + k[1] + '"' + ' ')
+                    comp_props_list.append('Model: ' + '"' + cypher_escape(k[1]) + '"' + ' ')
                 comp_props = ", ".join(comp_props_list)
 
                 # uses pattern comprehension rather than pattern matching as per Neo4j v4+
